@@ -223,6 +223,9 @@ func BuildStack(n Node) stackage.Stack {
 	for _, k := range nKids(n, "e") {
 		s.Push(BuildNode(k))
 	}
+	if nBool(n, "nn") {
+		s.SetNoNesting(true) // after the elements went in: the option concerns future pushes only
+	}
 	return s
 }
 
